@@ -289,6 +289,17 @@ func genC09(t *rapid.T) c09Case {
 		body = append(body, g.wrapSite(dir, depth)...)
 		body = append(body, mj.Text("|"))
 	}
+	if g.n(0, 5, "recursiveInclude") == 0 {
+		// a template that includes itself (by relative name) until a counter of the caller runs out
+		g.addFile(&mj.File{Path: dir + "rec.jet", Body: []*mj.Node{mj.If(mj.Bin(">", mj.Var("depthLeft"), mj.Num(0)),
+			[]*mj.Node{mj.Text("("), mj.Print(mj.Var("depthLeft")), mj.Set("depthLeft", mj.Bin("-", mj.Var("depthLeft"), mj.Num(1))), {K: "include", E: mj.Str([]string{"rec.jet", "./rec.jet", dir + "rec.jet"}[g.n(0, 2, "recSpelling")])}, mj.Text(")")}, nil)}})
+		body = append(body, mj.Let("depthLeft", mj.Num(float64(g.n(1, 3, "recDepth")))), mj.Text("{rec:"), &mj.Node{K: "include", E: mj.Str(dir + "rec.jet")}, mj.Text("}"))
+		g.labels["template-including-itself"] = true
+	}
+	g.p.Dev = g.n(0, 3, "devMode") == 0
+	if g.p.Dev {
+		g.labels["development-mode"] = true
+	}
 	usePick := g.n(0, 5, "pick") == 0
 	if usePick {
 		// the name handed to exec is computed by a function that answers differently every time it is asked:
